@@ -2,6 +2,7 @@ import MJ.Proofs.Store
 import MJ.Proofs.StoreIter
 import MJ.Proofs.Hidden
 import MJ.Proofs.MemoConc
+import MJ.Proofs.RenderProg
 import MJ.Gen.Tables
 /-!
 # C15 — an environment's behaviour depends on its contents, not on its history
@@ -33,7 +34,8 @@ state-id counter; the harness validates concurrent renders against a fresh envir
 namespace MJ.C15
 open MJ.Store
 
-/-- Full-strength statement of the modelled (sequential) part of C15, for every compile predicate
+/-- (The property at full strength is `C15_full` at the end of this file, proved by `C15_main`; this is
+its sequential store part.)  Statement of the modelled sequential store part of C15, for every compile predicate
 (compiling may depend on the load-time configuration, e.g. the syntax):
 * (history) two arbitrary histories from the empty store that end with the same contents — per name
   the source AND the load-time configuration of its last load —, the same loader and the same
@@ -46,7 +48,7 @@ open MJ.Store
   removed, re-added or the templates are cleared;
 * (reload) re-adding a template — also with byte-identical source — is a load: afterwards the
   template is the one compiled under the configuration in force NOW. -/
-def C15_full : Prop :=
+def C15_store_full : Prop :=
   ∀ c : LtCfg → Source → Bool,
     (∀ h₁ h₂ k : List Op,
         (Store.empty.run c h₁).flat = (Store.empty.run c h₂).flat →
@@ -218,7 +220,7 @@ example : -- the seeded change C15-3 ("skip recompiling an unchanged source") co
     (s.get c 0).2 = .found (3, cfgA) ∧ ((s.step c (.addOwned 0 3)).1.get c 0).2 = .found (3, cfgB) := by
   decide
 
-theorem C15_holds : C15_full := fun c =>
+theorem C15_holds : C15_store_full := fun c =>
   ⟨history_independent c, failed_insert_noop c, cached_source_sticky c, readd_is_a_load c⟩
 
 /-! ## `templates()` -/
@@ -331,6 +333,15 @@ theorem world_wf (c : LtCfg → Source → Bool) (f t g : Registry) (k : List WO
   have h0 : (World.init f t g).WF := by
     refine ⟨?_, ?_, ?_, rfl, rfl, rfl, rfl⟩ <;> (intro a ha; simp [World.init] at ha; subst ha; simp [World.init])
   generalize World.init f t g = w at h0
+  induction k generalizing w with
+  | nil => exact h0
+  | cons op ops ih => exact ih _ (World.step_WF c w op h0)
+
+/-- … and so does every world grown from `Environment::empty()` -/
+theorem world_wf_empty (c : LtCfg → Source → Bool) (k : List WOp) : (World.initEmpty.run c k).WF := by
+  have h0 : World.initEmpty.WF := by
+    refine ⟨?_, ?_, ?_, rfl, rfl, rfl, rfl⟩ <;> (intro a ha; simp [World.initEmpty] at ha; subst ha; simp [World.initEmpty])
+  generalize World.initEmpty = w at h0
   induction k generalizing w with
   | nil => exact h0
   | cons op ops ih => exact ih _ (World.step_WF c w op h0)
@@ -521,8 +532,31 @@ theorem all_hidden_state_classified : MJ.Gen.c15HiddenState = modelHiddenState.m
 
 open MJ.Hidden in
 example : -- every class is inhabited
-    ∀ cls : StateClass, ∃ row ∈ modelHiddenState, row.2 = cls := by
+    ∀ cls : StateClass, ∃ row ∈ modelHiddenState ++ modelHiddenStateExt, row.2 = cls := by
   intro cls; cases cls <;> decide
+
+open MJ.Hidden in
+/-- … and the same enumeration over the other two crates an application links with the engine,
+    minijinja-contrib and minijinja-autoreload: everything there is either state of a VALUE a
+    template creates (`cycler()`, `joiner()`) or belongs to the reloader (a layer above `Environment`
+    with a property of its own, C20). -/
+theorem all_hidden_state_classified_ext : MJ.Gen.c15HiddenStateExt = modelHiddenStateExt.map (·.1) := by
+  decide
+
+open MJ.Hidden in
+/-- `compile_depends_only_on`, the part that can be read off the source (regenerated as
+    `C15_COMPILE_READS`): a compile is handed (name, source, the store's current load-time
+    configuration) and nothing else, reads exactly the fields of that configuration, cannot reach the
+    environment, the VM, the loader or the registries through its imports, and the only hidden state
+    inside the compiler modules is of classes that carry nothing from one compile to the next (pools:
+    `pool_buffer_is_cleared`; once-cells: `once_cache_is_content_determined`; copy-on-write delimiters
+    of the syntax builder; the empty instruction list).  That the compiler's OUTPUT is the same for the
+    same three inputs is what the fingerprint tables of the harness observe — across processes that
+    compile in different orders. -/
+theorem compile_depends_only_on :
+    MJ.Gen.c15CompileReads = modelCompileReads ∧
+    compileReadsSafe MJ.Gen.c15CompileReads MJ.Gen.c15TemplateConfig modelHiddenState = true := by
+  decide
 
 open MJ.Hidden in
 /-- `onceCache`: whatever threads read a once-cell, in whatever order and however often, starting
@@ -728,6 +762,190 @@ open MJ.MemoConc in
 theorem memo_map_source_as_modelled :
     MJ.Gen.c15MemoMap = modelMemoMap ∧ memoMapSafe MJ.Gen.c15MemoMap = true := by
   decide
+
+/-! ## rendering: what a render can depend on
+
+`MJ/Model/RenderProg.lean`: a render is a program (`Prog`) of template lookups — adaptive: which name
+comes next may depend on the earlier answers — determined by the name and context it is called
+with, the run-time configuration, the registries and what it can read of the hidden state
+(`Renderer`; that the real VM is such a function is the validated hypothesis `render_reads_only`,
+that an answer is determined by (name, source, load-time configuration) the validated hypothesis
+`compile_depends_only_on`).  Proved here: nothing else gets in. -/
+
+open MJ.Render in
+/-- History independence INCLUDING rendering: two environments — in the same or in different worlds
+    (original / clone / freshly built), reached by whatever histories, rendered on whatever threads —
+    that have the same value, on threads that present the same hidden view, render every template
+    with every context to the same output (every renderer, every compile predicate), and have the
+    same value afterwards. -/
+theorem render_history_independent {Ctx Out : Type} (c : LtCfg → Source → Bool) (R : Renderer Ctx Out)
+    (w₁ w₂ : World) (h₁ : w₁.WF) (h₂ : w₂.WF) (e₁ e₂ : Nat) (l₁ : e₁ < w₁.stores.length)
+    (l₂ : e₂ < w₂.stores.length) (hv : w₁.flatView e₁ = w₂.flatView e₂) (t₁ t₂ : ThreadHidden)
+    (ht : t₁.view = t₂.view) (name : Name) (ctx : Ctx) :
+    (render c R w₁ e₁ t₁ name ctx).map (·.1) = (render c R w₂ e₂ t₂ name ctx).map (·.1) ∧
+    (render c R w₁ e₁ t₁ name ctx).bind (·.2.flatView e₁) = (render c R w₂ e₂ t₂ name ctx).bind (·.2.flatView e₂) := by
+  have hv1 := World.flatView_some w₁ e₁ l₁
+  have hv2 := World.flatView_some w₂ e₂ l₂
+  generalize hg₁ : ({ flat := (w₁.stores[e₁]).flat, rt := (w₁.rts[e₁]?).getD RtCfg.default,
+                      filters := regView w₁.filters e₁, tests := regView w₁.tests e₁,
+                      globals := regView w₁.globals e₁ } : EnvSpec) = v at hv1
+  rw [hv1] at hv
+  have hv2' : w₂.flatView e₂ = some v := hv.symm
+  unfold render
+  rw [hv1, hv2', ht]
+  obtain ⟨a1, a2, _, _⟩ := runAt_local c e₁ (R.prog v.rt v.filters v.tests v.globals t₂.view name ctx) w₁ h₁ l₁ v hv1
+  obtain ⟨b1, b2, _, _⟩ := runAt_local c e₂ (R.prog v.rt v.filters v.tests v.globals t₂.view name ctx) w₂ h₂ l₂ v hv2'
+  simp only [Option.map_some, Option.bind_some]
+  exact ⟨by rw [a1, b1], by rw [a2, b2]⟩
+
+open MJ.Render in
+/-- Renders do not influence each other: after ANY other activity that only renders and looks up
+    (any program `p` of lookups: other templates, other contexts, failing renders, the same render
+    before), every template renders with every context exactly as it would have before — in
+    particular the same template and context give the same result every time.  (Between the two
+    nothing but lookups happens: the outside world — what the loader answers — is the same.) -/
+theorem renders_do_not_influence_each_other {Ctx Out Out' : Type} (c : LtCfg → Source → Bool)
+    (R : Renderer Ctx Out) (v : EnvSpec) (hv : HiddenView) (p : Prog Out') (name : Name) (ctx : Ctx) :
+    (renderSpec c R (p.runOn c v).2 hv name ctx).1 = (renderSpec c R v hv name ctx).1 := by
+  obtain ⟨_, hs⟩ := runOn_same c p v v ⟨Flat.Same.refl c v.flat, rfl, rfl, rfl, rfl⟩
+  obtain ⟨hf, h1, h2, h3, h4⟩ := hs
+  unfold renderSpec
+  rw [h1, h2, h3, h4]
+  exact (runOn_same c _ v _ ⟨hf, h1, h2, h3, h4⟩).1
+
+open MJ.Render in
+example : -- a renderer that includes what the first answer names; rendering "1" (which loads 2 and 3
+          -- through the loader) does not change what rendering "0" gives
+    let c : LtCfg → Source → Bool := fun _ _ => true
+    let R : Renderer Nat (List Res) :=
+      ⟨fun _ _ _ _ _ n _ => .lookup n (fun r => match r with
+          | .found (src, _) => .lookup src (fun r2 => .ret [r, r2])
+          | _ => .ret [r])⟩
+    let v : EnvSpec := { flat := { loader := some (fun n => .src (n + 1)), cfg := cfgA, contents := fun _ => none },
+                         rt := RtCfg.default, filters := fun _ => none, tests := fun _ => none, globals := fun _ => none }
+    (renderSpec c R v HiddenView.clean 0 7).1 = [.found (1, cfgA), .found (2, cfgA)] ∧
+    (renderSpec c R (renderSpec c R v HiddenView.clean 1 7).2 HiddenView.clean 0 7).1 = [.found (1, cfgA), .found (2, cfgA)] := by
+  decide
+
+open MJ.Render MJ.Hidden in
+/-- What a render can read of the hidden state is the same on every thread, whatever that thread did
+    before: after any sequence of conversion events that leaves no guard alive (complete
+    conversions, nested ones, conversions left by caught panics — `caught_panic_restores_thread_state`)
+    and any use of the code generator pools (given one of the two clears, `source_pools_safe`), the
+    hidden view is the clean one. -/
+theorem hidden_view_is_clean (evs : List ConvEv) (hg : (ThreadState.clean.run evs).guards = [])
+    (takeClears recycleClears : Bool) (hp : (takeClears || recycleClears) = true) (pevs : List (PoolEv Nat)) :
+    ThreadHidden.view ⟨ThreadState.clean.run evs, Pool.empty.run takeClears recycleClears pevs⟩ = HiddenView.clean := by
+  have hf := conversion_keeps_flag_invariant ThreadState.clean rfl evs
+  have hs : (ThreadState.clean.run evs).serializing = false := by
+    rcases hf with ⟨_, h⟩ | ⟨k, h, _⟩
+    · exact h
+    · rw [hg] at h
+      cases k <;> simp at h
+  have hb := pool_buffer_is_cleared takeClears recycleClears hp pevs
+  unfold ThreadHidden.view HiddenView.clean
+  simp only [hs]
+  congr 1
+  generalize (Pool.empty.run takeClears recycleClears pevs).handedOut = l at hb
+  induction l with
+  | nil => rfl
+  | cons b bs ih =>
+    rw [List.flatten_cons, hb b (by simp), ih (fun x hx => hb x (by simp [hx]))]
+    rfl
+
+open MJ.Render MJ.Hidden in
+example : -- a thread that went through a caught panic inside a nested conversion and whose generators
+          -- pushed spans into pooled buffers
+    ThreadHidden.view ⟨panickingConversion true ThreadState.clean [.park 7, .enter, .park 9],
+                       Pool.empty.run true true [.take, .push 0 5, .recycle 0, .take]⟩ = HiddenView.clean := by
+  decide
+
+
+/-! ## C15 at full strength -/
+
+open MJ.Render MJ.Hidden MJ.MemoConc in
+/-- **C15, full strength** (for code generator pools with the given clears — `C15_main_source` plugs in
+    what the source has).  For every compile predicate `c` (`compile_depends_only_on`: whether and to
+    what a source compiles is a function of name, source and load-time configuration) and every
+    renderer `R` (`render_reads_only`):
+
+    1. *contents, not history* — take ANY two worlds in which the registries are well-formed heaps
+       (`World.WF`; by the second clause that is every world reached from `Environment::new()` or
+       `Environment::empty()` by ANY history of operations: add / replace / remove templates in
+       either tier, clear, set_loader, every load-time and run-time setter, add / remove filters,
+       tests, globals, clone, lookups = renders succeeding or failing), ANY environments `e₁`, `e₂`
+       alive in them (originals or clones), ANY two threads with arbitrary pasts (conversions incl. caught panics that leave no guard alive,
+       code generator pool traffic): if the two environments have the same value — run-time
+       configuration, load-time configuration, loader, per template (source, load-time configuration
+       of its last load), registries — then every template renders with every context to the SAME
+       output in both (`k₂` = the shortest way to build those contents: "a freshly built
+       environment with the same final contents"), and they have the same value afterwards;
+    2. *an addition that fails to compile leaves the environment as it was* (the state itself);
+    3. *renders do not influence each other* — after any other renders / lookups `p` (succeeding or
+       failing) every template renders as before; the same template and context give the same
+       result every time;
+    4. *from any number of threads at once* — under EVERY interleaving (lock granularity, explicit
+       mutex) of any number of threads looking up any names on a shared environment, every answer
+       any thread gets is the answer of a single lookup before the phase;
+    5. *a loader-backed template keeps the source it had when first requested* until it is removed,
+       re-added or the cache is cleared — sequentially across any other operations incl. set_loader
+       and configuration changes, and concurrently across any schedule incl. changes of what the
+       loader answers. -/
+def C15_full (takeClears recycleClears : Bool) : Prop :=
+  ∀ (Ctx Out : Type) (c : LtCfg → Source → Bool) (R : Renderer Ctx Out),
+    (∀ (w₁ w₂ : World) (e₁ e₂ : Nat) (evs₁ evs₂ : List ConvEv) (pevs₁ pevs₂ : List (PoolEv Nat))
+        (name : Name) (ctx : Ctx),
+        w₁.WF → w₂.WF → e₁ < w₁.stores.length → e₂ < w₂.stores.length →
+        (ThreadState.clean.run evs₁).guards = [] → (ThreadState.clean.run evs₂).guards = [] →
+        w₁.flatView e₁ = w₂.flatView e₂ →
+        (render c R w₁ e₁ ⟨ThreadState.clean.run evs₁, Pool.empty.run takeClears recycleClears pevs₁⟩ name ctx).map (·.1)
+          = (render c R w₂ e₂ ⟨ThreadState.clean.run evs₂, Pool.empty.run takeClears recycleClears pevs₂⟩ name ctx).map (·.1)) ∧
+    (∀ (f t g : Registry) (k : List WOp),
+        ((World.init f t g).run c k).WF ∧ (World.initEmpty.run c k).WF) ∧
+    (∀ (s : Store) (n : Name) (src : Source), c s.cfg src = false →
+        s.step c (.addBorrowed n src) = (s, .compileError) ∧ s.step c (.addOwned n src) = (s, .compileError)) ∧
+    (∀ (v : EnvSpec) (hv : HiddenView) (p : Prog Out) (name : Name) (ctx : Ctx),
+        (renderSpec c R (p.runOn c v).2 hv name ctx).1 = (renderSpec c R v hv name ctx).1) ∧
+    (∀ (s : Store) (todos : List (List Name)) (sched : List Ev), onlyThreads sched = true →
+        ∀ (i : Nat) (t : Thr), ((Sys.start s todos).run c sched).thr[i]? = some t →
+          ∀ p ∈ t.answers, p.2 = (s.get c p.1).2) ∧
+    ((∀ (s : Store) (n : Name) (t : Tmpl) (k : List Op),
+        (s.step c (.get n)).2 = .found t → (∀ op ∈ k, op.evicts n = false) →
+        (((s.step c (.get n)).1.run c k).step c (.get n)).2 = .found t) ∧
+     (∀ (s : Store) (todos : List (List Name)) (sched more : List Ev) (n : Name) (x : Tmpl × Origin),
+        find ((Sys.start s todos).run c sched).store.owned n = some x →
+        find (((Sys.start s todos).run c sched).run c more).store.owned n = some x))
+
+open MJ.Render MJ.Hidden MJ.MemoConc in
+/-- **C15_main.**  The only hypothesis left explicit is about the source: each code generator pool
+    clears its buffers when taking or when recycling (`pools_clear`, discharged from the regenerated
+    table in `C15_main_source`).  The two VALIDATED hypotheses are parameters by type —
+    `compile_depends_only_on` is `c : LtCfg → Source → Bool` together with `Tmpl = Source × LtCfg`,
+    `render_reads_only` is `R : Renderer Ctx Out` — and are tied to the code by the regenerated lists
+    `C15_COMPILE_READS` / `C15_HIDDEN_STATE` (nothing else exists that a compile / a render could
+    read) and by the differential histories.  Everything else is proved. -/
+theorem C15_main (takeClears recycleClears : Bool) (pools_clear : (takeClears || recycleClears) = true) :
+    C15_full takeClears recycleClears := by
+  intro Ctx Out c R
+  refine ⟨?_, ?_, failed_insert_noop c, renders_do_not_influence_each_other c R, ?_,
+          cached_source_sticky c, concurrent_entries_never_replaced c⟩
+  · intro w₁ w₂ e₁ e₂ evs₁ evs₂ pevs₁ pevs₂ name ctx h₁ h₂ l₁ l₂ g₁ g₂ hv
+    refine (render_history_independent c R _ _ h₁ h₂ e₁ e₂ l₁ l₂ hv _ _ ?_ name ctx).1
+    rw [hidden_view_is_clean evs₁ g₁ takeClears recycleClears pools_clear pevs₁,
+        hidden_view_is_clean evs₂ g₂ takeClears recycleClears pools_clear pevs₂]
+  · intro f t g k
+    exact ⟨world_wf c f t g k, world_wf_empty c k⟩
+  · intro s todos sched hs i t hi
+    exact concurrent_same_answer c s todos sched hs i t hi
+
+open MJ.Hidden in
+/-- … with the clears the code generator pools of the current source have (regenerated table) -/
+theorem C15_main_source : ∀ row ∈ MJ.Gen.c15Pools, C15_full row.2.1 row.2.2.2 := by
+  intro row hrow
+  exact C15_main _ _ (source_pools_safe.2 row hrow)
+
+example : -- the pools of the source: all of them clear on both sides today
+    MJ.Gen.c15Pools.map (fun r => (r.2.1, r.2.2.2)) = [(true, true), (true, true), (true, true)] := by decide
 
 /-! ## tie to the source text -/
 
